@@ -676,8 +676,17 @@ Definition facts_cover (i : input) : bool :=
 (* ---------- cases ---------- *)
 Record case := mk_case { c_id : N; c_in : input; c_obs : obs }.
 
+(* the decoder of the canonical text (dec_canon, the witness of
+   C15_hypotheses_satisfiable) against encoding/json: whenever it accepts a file
+   content met in the history, json.Unmarshal accepted it with the same bytes *)
+Definition codec_agrees (i : input) : bool :=
+  forallb (fun e => match dec_canon (fst e) with
+                    | Some x => dec_res_eqb (snd e) (Some x)
+                    | None => true
+                    end) (i_dec i).
+
 Definition run (cs : list case) : list (N * N * N) :=
   run_cases c_id
-    (fun c => facts_cover (c_in c) && obs_eqb (model (c_in c)) (c_obs c))
+    (fun c => facts_cover (c_in c) && codec_agrees (c_in c) && obs_eqb (model (c_in c)) (c_obs c))
     (fun c => negb (wf (c_in c)) || spec_ok (c_in c) (c_obs c))
     (fun _ => 0%N) cs.
